@@ -252,6 +252,15 @@ def observe_dump(c):
         o['text_stream'] = buf.getvalue()
     except Exception as e:  # noqa
         o['text_stream'] = 'EXC ' + repr(e)
+    # a dump function created with the classes in the reverse order (the
+    # hook chains are defined by the class hierarchy, not by that order)
+    try:
+        key = ('reversed', c['model'])
+        if key not in _dfn:
+            _dfn[key] = y.dumps_function(*reversed(b.registered))
+        o['text_rev'] = _dfn[key](obj)
+    except Exception as e:  # noqa
+        o['text_rev'] = 'EXC ' + repr(e)
     o['value'] = before_abs
     return o, obj, b
 
@@ -309,6 +318,10 @@ def rel_c06(c):
         out.append(('impl', 'dump_function wrote %r into a stream, '
                     'dumps_function returns %r' % (o['text_stream'], text),
                     fid))
+    if o['text_rev'] != text:
+        out.append(('impl', 'dumps_function with the classes registered in '
+                    'the reverse order returns %r, in the declared order %r'
+                    % (o['text_rev'], text), fid))
     # sweeten calls (C10, dumping side)
     sl = [[e[0], e[1]] for e in (c['dlog'] if isinstance(c['dlog'], list)
                                  else [])]
